@@ -37,6 +37,25 @@ pub mod signum;
 mod wnaf;
 pub use self::wnaf::Wnaf;
 
+/// Wrappers for the verification harness (/verif); compiled only with `--cfg pairing_plus_verif`.
+#[cfg(pairing_plus_verif)]
+pub mod verif_hooks {
+    use {CurveProjective, PrimeFieldRepr};
+
+    /// `wnaf::wnaf_table`
+    pub fn wnaf_table<G: CurveProjective>(table: &mut Vec<G>, base: G, window: usize) {
+        ::wnaf::wnaf_table(table, base, window)
+    }
+    /// `wnaf::wnaf_form`
+    pub fn wnaf_form<S: PrimeFieldRepr>(wnaf: &mut Vec<i64>, c: S, window: usize) {
+        ::wnaf::wnaf_form(wnaf, c, window)
+    }
+    /// `wnaf::wnaf_exp`
+    pub fn wnaf_exp<G: CurveProjective>(table: &[G], wnaf: &[i64]) -> G {
+        ::wnaf::wnaf_exp(table, wnaf)
+    }
+}
+
 use ff::{Field, PrimeField, PrimeFieldDecodingError, PrimeFieldRepr, ScalarEngine, SqrtField};
 use std::error::Error;
 use std::fmt;
